@@ -21,6 +21,19 @@ CFG = {
         "Swat4.C14.cleanServers2_shape",
         "Swat4.C14.refreshed_not_scanned",
         "Swat4.C14.clean_instances_count",
+        "Swat4.C14.clean_complete",
+        "Swat4.C14.clean_complete2",
+        "Swat4.C14.cleanServers2_run_eq",
+        "Swat4.C14.clean_keeps_refreshed",
+        "Swat4.C14.exec_refLeUpd",
+        "Swat4.C14.usecases_write_refLeNow",
+        "Swat4.C14.refLeUpd_preserved",
+        "Swat4.C14.refreshed_not_scanned_inv",
+        "Swat4.C14.refreshed_survives_pass",
+        "Swat4.C14.clean_instances_state",
+        "Swat4.C14.refreshedAt_changes_only_by",
+        "Swat4.C14.report_rejected_unchanged",
+        "Swat4.C14.renew_rejected_unchanged",
     ],
     "shards": (4, 16),
     "nontrivial": _nontrivial,
@@ -33,7 +46,8 @@ CFG = {
             "'the refreshed server survives, the stale ones are removed' for races",
     "assumptions": [
         "each repository call is atomic at its commit (C09); the race is generated at call granularity",
-        "refreshedAt <= updatedAt for every stored record (every refresh is a write at a clock value not earlier than the refresh time) — hypothesis of refreshed_not_scanned, checked on every dump by the correspondence (UP >= RF)",
+        "refreshedAt <= updatedAt for every stored record is now a theorem (refLeUpd_preserved: invariant of every use case run at a clock value not before any stored update time, i.e. on a monotone clock; a backward clock step breaks it — witness in Properties/C14.lean); it is still checked on every dump by the correspondence (UP >= RF)",
+        "rows sit under their own address key (Keyed: hypothesis of clean_complete / refreshedAt_changes_only_by; invariant by C16 keyed_preserved and refLeUpd_preserved)",
         "instance cleanup uses an inclusive bound where server cleanup uses an exclusive one (as coded; both mirrored)",
     ],
     "trusted_base": COMMON_TRUSTED,
@@ -42,7 +56,12 @@ CFG = {
                 "scan_selects_stale (the pass scans exactly updatedAt < cutoff), C14_race (for every list of scanned copies, a server whose stored "
                 "record is newer than the scanned copy and refreshed after the cutoff is still stored unchanged after the whole pass — the refresh may "
                 "commit between scan and delete), C14_window (a refresh committing between the scan's index read and its record fetch: the repaired guard drops the fetched copy), refreshed_not_scanned (a refresh before the scan keeps it out of the scan), remove_erases_unchanged, "
-                "clean_instances_count. Tied to listservers.go, servercleaner.go, instancecleaner.go by sequential histories on a fake clock with "
+                "clean_instances_count; clean_complete / clean_complete2 (a pass — atomic form, and the scan/fetch/delete form the driver runs — removes exactly the rows with "
+                "updatedAt < now - retention, leaves every other row and the instances and queue unchanged and reports their number), clean_instances_state (which instances remain), "
+                "refLeUpd_preserved (refreshedAt <= updatedAt is an invariant of every use case, complete runs and every crash/fault prefix, on a monotone clock), "
+                "refreshed_survives_pass (the race theorem from an invariant-satisfying start, no per-row hypothesis), refreshedAt_changes_only_by (a stored refresh time "
+                "changes only to `now` and only under the key of an accepted heartbeat, an owner-checked keepalive or a successful probe; retry, failure, refresh, revival, "
+                "REST submission, removal and the cleaners leave it alone). Tied to listservers.go, servercleaner.go, instancecleaner.go by sequential histories on a fake clock with "
                 "boundary-aligned steps and by all placements of one refresh among the cleanup pass's repository calls.",
         "level_note": "Trusted: Lean kernel (propext, Quot.sound, Classical.choice); atomic repository calls (C09/C11); Prog models of the cleaners and "
                       "the listing validated by the differential run; the bookkeeping oracle in the driver.",
